@@ -136,6 +136,23 @@ def rule_d3(toks, log, drop=()):
                 # plus the proof obligation `assert(__zchkK == 0)` unless the ordinal is in the drop list.
                 if len(args) != 1 or not args[0] or any(x[2] for x in args[0]):
                     raise Unsupported('D3z: debug_assert_zero! shape: ' + _txt(toks[i:e + 1]))
+                if i > 0 and _is(toks[i - 1], '=>') and not toks[i - 1][2] and e + 1 < len(toks) and _is(toks[e + 1], ',') \
+                        and not toks[e + 1][2]:
+                    # D3z-arm: `PAT => debug_assert_zero!(E) ,` (the macro call is the whole match-arm expression, value `()`)
+                    # ==> `PAT => { let __zchkK = E ; assert ( __zchkK == 0 ) ; } ,` (same meaning as the statement form)
+                    zv = '__zchk%d' % n_assert
+                    n_assert += 1
+                    out += toks_of('{ let %s =' % zv, False) + args[0] + [T('p', ';')]
+                    if n_assert - 1 in drop or '*' in drop:
+                        log.append('D3z-arm debug_assert_zero #%d `%s` (match arm): evaluated, comparison dropped' % (
+                            n_assert - 1, _txt(args[0])))
+                    else:
+                        log.append('D3z-arm debug_assert_zero #%d `%s` (match arm): evaluated, then proof obligation `== 0`' % (
+                            n_assert - 1, _txt(args[0])))
+                        out += toks_of('assert ( %s == 0 ) ;' % zv, False)
+                    out += [T('p', '}')]
+                    i = e + 1
+                    continue
                 if not (e + 1 < len(toks) and _is(toks[e + 1], ';')) or \
                         (i > 0 and not (toks[i - 1][2] or (toks[i - 1][0] == 'p' and toks[i - 1][1] in (';', '{', '}')))):
                     raise Unsupported('D3z: debug_assert_zero! is not a statement')
@@ -621,6 +638,28 @@ def rule_d4a(toks, log):
             n += 1
             log.append('D4a `assert!(%s)` -> evaluated, then proof obligation (panic unreachable)' % _txt(cond)[:100])
             out += toks_of('let %s : bool =' % v, False) + cond + toks_of('; assert ( %s ) ;' % v, False)
+            i = e + 2
+            continue
+        if t[0] == 'id' and t[1] == 'assert_eq' and not t[2] and not guard and i + 2 < len(toks) and _is(toks[i + 1], '!') \
+                and not toks[i + 1][2] and _is(toks[i + 2], '('):
+            # D4a-eq: `assert_eq!(A, B);` (a statement, exactly two arguments) ==> `let __asserteqK : bool = ( A ) == ( B ) ;
+            # assert ( __asserteqK ) ;`: A and B are still executed, the proof obligation says the panic is unreachable
+            e = _match_close(toks, i + 2)
+            if not (e + 1 < len(toks) and _is(toks[e + 1], ';')):
+                raise Unsupported('D4a-eq: assert_eq! is not a statement')
+            if i > 0 and not (toks[i - 1][2] or (toks[i - 1][0] == 'p' and toks[i - 1][1] in (';', '{', '}'))):
+                raise Unsupported('D4a-eq: assert_eq! is not at statement position')
+            args = _split_top(toks[i + 3:e])
+            if args and not args[-1]:
+                args = args[:-1]
+            if len(args) != 2 or not args[0] or not args[1] or any(x[2] for x in args[0] + args[1]):
+                raise Unsupported('D4a-eq: assert_eq! shape')
+            v = '__asserteq%d' % n
+            n += 1
+            log.append('D4a-eq `assert_eq!(%s, %s)` -> evaluated, then proof obligation (panic unreachable)' % (
+                _txt(args[0])[:60], _txt(args[1])[:60]))
+            out += toks_of('let %s : bool = (' % v, False) + args[0] + toks_of(') == (', False) + args[1] + \
+                toks_of(') ; assert ( %s ) ;' % v, False)
             i = e + 2
             continue
         out.append(t)
